@@ -31,7 +31,7 @@ impl Totals {
     fn fail(&mut self, rule: &str, src: &str, block: &str, detail: String) {
         let n = self.by_rule.entry(rule.to_string()).or_insert(0);
         *n += 1;
-        if *n <= 40 {
+        if *n <= 5000 {
             self.failures.push(json!({"rule": rule, "src": src, "block": block, "detail": detail}));
         }
     }
